@@ -94,6 +94,22 @@ fn array_member_of(text: &str, x: &str) -> bool {
     false
 }
 
+/// X and every typedef name that leads to it (`typedef X T1; typedef T1 T2;`)
+fn aliases_of(text: &str, x: &str) -> Vec<String> {
+    let mut names = vec![x.to_string()];
+    loop {
+        let mut grew = false;
+        for l in text.lines() {
+            if let Some(rest) = l.trim().strip_prefix("typedef ") {
+                let toks: Vec<&str> = rest.trim_end_matches(';').split_whitespace().collect();
+                if toks.len() == 2 && names.iter().any(|n| n == toks[0]) && !names.iter().any(|n| n == toks[1]) { names.push(toks[1].to_string()); grew = true; }
+            }
+        }
+        if !grew { break; }
+    }
+    names
+}
+
 /// is the record X an argument of some template instantiation in the header (`<X>`, `<X, …>`, `<…, X>`)?
 fn template_arg_of(text: &str, x: &str) -> bool {
     [format!("<{x}>"), format!("<{x},"), format!(", {x}>"), format!(", {x},"), format!(",{x}>")].iter().any(|p| text.contains(p.as_str()))
@@ -328,7 +344,7 @@ fn main() {
                             Some("packed_manual_impl_takes_reference")
                         } else if l.contains("E0277") && l.contains("doesn't implement `Debug`") && has("--impl-debug") && has("--no-debug") {
                             Some("impl_debug_member_without_debug")
-                        } else if l.contains("E0277") && l.contains("doesn't implement `Debug`") && has("--impl-debug") && stub_names.iter().any(|x| l.contains(&format!("`{x}`")) && (array_member_of(&text, x) || template_arg_of(&text, x))) {
+                        } else if l.contains("E0277") && l.contains("doesn't implement `Debug`") && has("--impl-debug") && stub_names.iter().any(|x| l.contains(&format!("`{x}`")) && (aliases_of(&text, x).iter().any(|a| array_member_of(&text, a) || template_arg_of(&text, a)) || array_member_of(&text, x) || template_arg_of(&text, x))) {
                             // input-defined: --impl-debug and a blocklisted record type is the element type of an array member or an
                             // argument of a template instantiation used as a member
                             Some("impl_debug_through_blocklisted")
